@@ -356,12 +356,101 @@ fn file_case(goldens: &[Vec<u8>], idx: u64) -> Case {
     Case { family: format!("file|{}|{}", FILE_EXTS[ei], region), prefix: 9, emu: 0, large: Bytes(d), base: Bytes(goldens[ei].clone()), ext: FILE_EXTS[ei].to_string(), skip: false }
 }
 
+// ------------------------------------------------------------------------------------------
+// (vi-b) IcyDraw: the document parts travel base64-encoded in zTXt chunks of a PNG; extremes are written into the records
+
+fn icy_unwrap(file: &[u8]) -> Vec<(String, Vec<u8>)> {
+    use base64::{engine::general_purpose, Engine as _};
+    let mut out = Vec::new();
+    if let Ok(reader) = png::Decoder::new(file).read_info() {
+        for c in &reader.info().compressed_latin1_text {
+            if let Ok(text) = c.get_text() {
+                if let Ok(data) = general_purpose::STANDARD.decode(text) {
+                    out.push((c.keyword.clone(), data));
+                }
+            }
+        }
+    }
+    out
+}
+
+fn icy_wrap(chunks: &[(String, Vec<u8>)]) -> Vec<u8> {
+    use base64::{engine::general_purpose, Engine as _};
+    let mut out = Vec::new();
+    {
+        let mut enc = png::Encoder::new(&mut out, 1, 1);
+        enc.set_color(png::ColorType::Rgba);
+        enc.set_depth(png::BitDepth::Eight);
+        enc.set_compression(png::Compression::Fast);
+        for (k, d) in chunks {
+            let _ = enc.add_ztxt_chunk(k.clone(), general_purpose::STANDARD.encode(d));
+        }
+        if let Ok(mut w) = enc.write_header() {
+            let _ = w.write_image_data(&[0, 0, 0, 0]);
+            let _ = w.finish();
+        }
+    }
+    out
+}
+
+fn icy_golden_chunks() -> Vec<(String, Vec<u8>)> {
+    let mut buf = Buffer::new((20, 4));
+    for x in 0..20 {
+        buf.layers[0].set_char((x, 1), icy_engine::AttributedChar::new((b'a' + (x % 7) as u8) as char, icy_engine::TextAttribute::from_u8(x as u8 + 1, icy_engine::IceMode::Ice)));
+    }
+    let mut l = icy_engine::Layer::new("second", (6, 3));
+    l.properties.has_alpha_channel = true;
+    l.set_char((1, 1), icy_engine::AttributedChar::new('Z', icy_engine::TextAttribute::from_u8(0x1E, icy_engine::IceMode::Ice)));
+    buf.layers.push(l);
+    let mut o = icy_engine::SaveOptions::new();
+    o.lossles_output = true;
+    icy_unwrap(&buf.to_bytes("icy", &o).unwrap_or_default())
+}
+
+const ICY_PATTERNS: [&[u8]; 6] = [&[0xFF, 0xFF, 0xFF, 0x7F], &[0xFF, 0xFF, 0xFF, 0xFF], &[0, 0, 1, 0], &[0, 0, 0, 0x40], &[0xFF], &[0]];
+
+fn icy_case(chunks: &[(String, Vec<u8>)], idx: u64) -> Case {
+    let np = ICY_PATTERNS.len() as u64;
+    let pat = ICY_PATTERNS[(idx % np) as usize];
+    let rest = idx / np;
+    let off = (rest % 96) as usize;
+    let ci = (rest / 96) as usize % chunks.len().max(1);
+    let mut cs = chunks.to_vec();
+    let mut key: String = cs[ci].0.chars().filter(|c| !c.is_ascii_digit()).collect();
+    if key.starts_with("LAYER_") && cs[ci].1.len() >= 4 {
+        // name the field of the layer record the overwrite starts in (layout: ICEDFormat.md / icy_draw.rs)
+        let title_len = u32::from_le_bytes([cs[ci].1[0], cs[ci].1[1], cs[ci].1[2], cs[ci].1[3]]) as usize;
+        let rel = off as i64 - (4 + title_len) as i64;
+        let field = match rel {
+            i64::MIN..=-1 => "title",
+            0 => "role",
+            1..=4 => "unused",
+            5 => "mode",
+            6..=9 => "color",
+            10..=13 => "flags",
+            14 => "transparency",
+            15..=22 => "offset",
+            23..=30 => "size",
+            31..=32 => "font_page",
+            33..=40 => "data_length",
+            _ => "cells",
+        };
+        key = format!("{key}{field}");
+    }
+    for (i, b) in pat.iter().enumerate() {
+        if off + i < cs[ci].1.len() {
+            cs[ci].1[off + i] = *b;
+        }
+    }
+    Case { family: format!("file|icy|{key}"), prefix: 9, emu: 0, large: Bytes(icy_wrap(&cs)), base: Bytes(icy_wrap(chunks)), ext: "icy".to_string(), skip: false }
+}
+
 fn main() {
     let mut eng = Engine::new("C03");
     eng.rule(
         "csi_table: 63 finals x 8 intermediates x parameter lists over {0,1,size,2^16,10^6,2^31-1} (all lists of length <=2; lengths 3..6 with exactly one large position, others 1 or size) x 3 screen \
          prefixes (empty, full+scrollback+margins, printable just written); other_streams: macro recursion/repeat/fan-out, sixel raster/repeat/colour registers, OSC, music, custom-font DCS payloads, Avatar/Ctrl-A \
-         repeats; files: golden xb/adf/idf/tnd/bin/psf/tdf files with 1-4 header or tail bytes set to extremes; random_numbers: generated CSI/DCS sequences with random magnitudes. Each input runs in a \
+         repeats; files: golden xb/adf/idf/tnd/bin/psf/tdf files with 1-4 header or tail bytes set to extremes; icy_record_fields: every byte offset 0..96 of every zTXt record of a golden IcyDraw file overwritten with 1-4 byte extremes; psf2_headers: all combinations of extreme PSF2 header fields; random_numbers: generated CSI/DCS sequences with random magnitudes. Each input runs in a \
          worker: CPU (all threads) <= max(0.5 s, 50 x CPU of the same template at screen size), peak heap <= 256 MiB, no abort, no answer within 6 s = hang. Non-trivial: the case ran to completion \
          under measurement (not ended by a panic); distinct by case hash.",
     );
@@ -414,6 +503,21 @@ fn main() {
         move |i| {
             let mut c = file_case(&goldens, i);
             c.skip = st3(&c.family);
+            c
+        },
+        check,
+        classify,
+    );
+
+    let icy_chunks = icy_golden_chunks();
+    let n_icy = (icy_chunks.len() as u64) * 96 * ICY_PATTERNS.len() as u64;
+    let st5 = steered.clone();
+    eng.enumerated_with_class(
+        PartCfg::new("icy_record_fields", 0, 0).isolated().timeout_ms(6_000).hang_is_violation(true).heap_cap(2 << 30).exhaustive(true),
+        n_icy,
+        move |i| {
+            let mut c = icy_case(&icy_chunks, i);
+            c.skip = st5(&c.family);
             c
         },
         check,
@@ -478,4 +582,6 @@ const KNOWN_FAMILIES: &[(&str, &str)] = &[
     ("sixel|repeat", "C03-sixel-repeat-unbounded"),
     ("sixel|raster", "C03-sixel-raster-allocation"),
     ("sixel|colour_register_define", "C03-sixel-colour-register-index"),
+    ("file|icy|LAYER_size", "C03-icy-layer-size-allocation"),
+    ("file|icy|LAYER_offset", "C03-icy-layer-size-allocation"),
 ];
